@@ -123,6 +123,7 @@ class Item:
         self.name = name
         self.shape = shape        # named | tuple | unit (structs)
         self.generics = generics
+        self.where = ''            # the item's own where-clause predicates (text), e.g. 'T: Clone, U: Copy'
         self.attrs = attrs or []
         self.members = members or []
         self.meta = meta or {}
@@ -136,9 +137,12 @@ class Item:
         elif self.shape == 'named':
             body = ' { %s }' % ', '.join(m.render() for m in self.members)
         elif self.shape == 'tuple':
-            body = '(%s);' % ', '.join(m.render() for m in self.members)
+            body = '(%s)%s;' % (', '.join(m.render() for m in self.members), (' where ' + self.where) if getattr(self, 'where', '') else '')
         else:
             body = ';'
+        w = getattr(self, 'where', '')
+        if w and not (self.kind == 'struct' and self.shape == 'tuple'):
+            return '%s\n%s %s%s where %s%s' % (a, self.kind, self.name, self.generics, w, body)
         return '%s\n%s %s%s%s' % (a, self.kind, self.name, self.generics, body)
 
     def clone(self):
@@ -2719,8 +2723,16 @@ def c11_cases(rng, n):
             wh[cp] = rng.choice(['T: Default', 'U: Clone'])
             attrs.append(Attr('where_clause', wh[cp], ded=cp))
         rng.shuffle(attrs)
-        it = Item('struct', 'S', 'named', generics, attrs, [Field('a', 'i32'), Field('b', 'i16', [Attr('map', 'bb')])],
+        shape = rng.choice(['named', 'named', 'tuple'])
+        fields = [Field('a' if shape == 'named' else None, 'i32'), Field('b' if shape == 'named' else None, 'i16', [Attr('map', 'bb')] if shape == 'named' else [])]
+        it = Item('struct', 'S', shape, generics, attrs, fields,
                   {'gen': 'c11', 'lts': lts, 'decl': decl, 'names': names, 'where': {(oracles_norm(k) if k else None): v for k, v in wh.items()}})
+        # the deriving type's own where-clause: its predicates come first in every impl
+        if rng.random() < 0.4:
+            it.where = rng.choice(['Self: Sized', 'u8: Copy', "i32: Into<i64> + 'static, u8: Copy", '(): Sized,'] +
+                                  (['T: Clone', 'T: Default + Send, T: Sync'] if any(t[0] == 'T' for t in tys) else []) +
+                                  (["'%s: 'static" % lts[0]] if lts else []))
+        it.meta['own_where'] = it.where
         out.append(it)
     return out
 
